@@ -108,7 +108,7 @@ class Scenario:
         return o
 
     # ---- obligations
-    def oblige(self, kind, goal, exact=True, finding=None, note=None, tag=None, oracle=None):
+    def oblige(self, kind, goal, exact=True, finding=None, note=None, tag=None, oracle=None, hint=None):
         """state a goal under the current path condition; top-level conjunctions become one obligation each"""
         name = f'{self.ck.prop}/{self.func_name}/{kind}'
         if self.label:
@@ -125,6 +125,8 @@ class Scenario:
                 meta['finding'] = finding
             if note:
                 meta['note'] = note
+            if hint is not None:
+                meta['refute_hint'] = hint      # a sub-class of inputs expected to contain a counter-model
             if oracle or self.oracle:
                 meta['oracle'] = oracle or self.oracle
             self._n += 1
@@ -233,7 +235,13 @@ class Check:
             canaries += 1
             if not ok:
                 self.vacuity.append(f'{ob.name}: hypotheses unsatisfiable (vacuous)')
-        solve.discharge(self.obligations, timeout_ms=timeout)
+        # refutation hints: a model of hyps ∧ ¬goal ∧ hint is a genuine counter-model of the obligation (the hint only
+        # tells the solver where to look); no model under the hint decides nothing
+        for ob in self.obligations:
+            if ob.meta.get('refute_hint') is not None and solve.hinted_refute(ob, ob.meta['refute_hint'], 5000):
+                ob.status, ob.backend = 'refuted', 'z3-' + z3.get_version_string()
+                ob.note = 'counter-model found inside the hinted input sub-class'
+        solve.discharge([o for o in self.obligations if o.status != 'refuted'], timeout_ms=timeout)
         # undecided obligations: (1) bounded refutation search — the same VC with the integer inputs confined to
         # a small box, where the solver finds counter-models of quantified VCs quickly (any model is a genuine
         # counter-model); (2) otherwise the native oracle searches the obligation's witness family.
